@@ -635,6 +635,51 @@ func runC16(w *core.WorkerCtx, idx int) *core.CaseResult {
 			witness("edit "+e.Class, t2)
 		}
 	}
+	// must differ: a password embedded in a URL (user:password@host) is a secret setting like any other
+	for _, up := range []struct {
+		class string
+		set   func(s *cfggen.Spec, pw string) bool
+	}{
+		{"remote_write/url-password", func(s *cfggen.Spec, pw string) bool {
+			if len(s.RemoteWrite) == 0 {
+				s.RemoteWrite = append(s.RemoteWrite, cfggen.Remote{})
+			}
+			s.RemoteWrite[0].URL = "https://writer:" + pw + "@rw.example/api/v1/write"
+			return true
+		}},
+		{"remote_read/url-password", func(s *cfggen.Spec, pw string) bool {
+			if len(s.RemoteRead) == 0 {
+				s.RemoteRead = append(s.RemoteRead, cfggen.Remote{})
+			}
+			s.RemoteRead[0].URL = "https://reader:" + pw + "@rr.example/api/v1/read"
+			return true
+		}},
+		{"job/proxy_url-password", func(s *cfggen.Spec, pw string) bool {
+			if len(s.Jobs) == 0 {
+				return false
+			}
+			s.Jobs[0].ProxyURL = "http://puser:" + pw + "@proxy.example:3128"
+			return true
+		}},
+	} {
+		a, b := clone(spec), clone(spec)
+		if !up.set(a, "pw-one") || !up.set(b, "pw-two") {
+			continue
+		}
+		ha, errA := hashOf(cfggen.Render(a, cfggen.Style{Indent: 2}))
+		hb, errB := hashOf(cfggen.Render(b, cfggen.Style{Indent: 2}))
+		if errA != nil || errB != nil {
+			res.AddStat("edits_rejected_by_loader", 1)
+			continue
+		}
+		res.Execs++
+		res.AddStat("edits_must_differ", 1)
+		res.AddSet("edit_classes", up.class)
+		if ha == hb {
+			res.Violate("C16/edit-invisible/"+up.class, "two configurations that differ only in the password inside a URL (%s) have the same hash %s", up.class, ha)
+			witness("edit "+up.class, cfggen.Render(b, cfggen.Style{Indent: 2}))
+		}
+	}
 	// must be equal: formatting
 	for si, st := range c16Styles {
 		t2 := cfggen.Render(spec, st)
@@ -695,6 +740,37 @@ func runC16(w *core.WorkerCtx, idx int) *core.CaseResult {
 			}
 		}
 		os.RemoveAll(filepath.Join(w.Scratch, fmt.Sprintf("c16-file-%d", idx)))
+	}
+	// same content hashed by several managers of one process AT THE SAME TIME (coordinator reloads and pushes
+	// are served by concurrent HTTP handlers; a sidecar process may hold several managers): same hash
+	if idx%4 == 0 {
+		var wg sync.WaitGroup
+		var badMu sync.Mutex
+		bad := ""
+		for g := 0; g < 8; g++ {
+			wg.Add(1)
+			go func() {
+				defer wg.Done()
+				m := prom.NewConfigManager()
+				for i := 0; i < 12; i++ {
+					if err := m.ReloadFromRaw([]byte(base)); err != nil {
+						continue
+					}
+					if h := m.ConfigInfo().ConfigHash; h != h0 {
+						badMu.Lock()
+						bad = h
+						badMu.Unlock()
+					}
+				}
+			}()
+		}
+		wg.Wait()
+		res.Execs++
+		res.AddStat("concurrent_hash_rounds", 1)
+		if bad != "" {
+			res.Violate("C16/hash-differs-under-concurrent-reloads", "eight managers reloading the same text at the same time: one computed %s, the content hashes to %s", bad, h0)
+			witness("concurrent reloads", base)
+		}
 	}
 	// same content, other processes and a sidecar
 	if idx%8 == 0 {
